@@ -18,6 +18,8 @@ package storage
 //@   property C17
 //@   requires txn != nil
 //@   modifies nothing
+//@   trustpre NewIntegerFromString -- STORE INVARIANT (assumed): the text under ASSETTOTAL/<asset> was written by writeTotalInAsset as Integer.String() of a
+//@   -- non-negative amount, so it is a non-negative decimal and the parser (which documents its panics since the C33 text work) accepts it
 //@   ensures [total] err == nil ==> val(result0) == TotalOf(*txn, hash) && val(result0) >= 0
 //@   ensures [c16-errors] err != nil ==> badger.iofail(err)
 
